@@ -12,7 +12,7 @@ use ark_ec::{
 };
 use ark_ff::{One, PrimeField, UniformRand, Zero};
 use ark_poly::{multivariate::Term, DenseMVPolynomial};
-use ark_std::{marker::PhantomData, ops::Index, ops::Mul, rand::RngCore};
+use ark_std::{format, marker::PhantomData, ops::Index, ops::Mul, rand::RngCore};
 #[cfg(not(feature = "std"))]
 use ark_std::{string::ToString, vec::Vec};
 #[cfg(feature = "parallel")]
@@ -536,6 +536,14 @@ where
         Self::Commitment: 'a,
     {
         let check_time = start_timer!(|| "Checking evaluations");
+        // An evaluation proof consists of exactly one witness per variable
+        if proof.w.len() != vk.num_vars {
+            return Err(Error::IncorrectInputLength(format!(
+                "Expected {} witnesses in the proof, found {}",
+                vk.num_vars,
+                proof.w.len()
+            )));
+        }
         // Accumulate commitments and values
         let (combined_comm, combined_value) =
             Marlin::<E, P, Self>::accumulate_commitments_and_values(
@@ -588,6 +596,14 @@ where
                 None,
             )?;
         assert_eq!(proof.len(), combined_queries.len());
+        // An evaluation proof consists of exactly one witness per variable
+        if let Some(p) = proof.iter().find(|p| p.w.len() != vk.num_vars) {
+            return Err(Error::IncorrectInputLength(format!(
+                "Expected {} witnesses in each proof, found {}",
+                vk.num_vars,
+                p.w.len()
+            )));
+        }
         let check_time =
             start_timer!(|| format!("Checking {} evaluation proofs", combined_comms.len()));
         let g = vk.g.into_group();
